@@ -1,7 +1,121 @@
-"""C48 -- HTTP Digest credentials verify exactly the right responses: bounded stand-in (contracts/parts/C48_bounded.py)."""
-from contracts._parts import bounded, EXPLORATION_NOTE
+"""C48 -- HTTP Digest credentials verify exactly the right responses.
 
-CONTRACTS = []
+Deductive: DigestCredentialFactory._verifyOpaque is loop free.  With the library functions it calls replaced by their
+contracts (bytes.split returns the fields, base64.b64decode either refuses or returns the key, int() parses or raises
+ValueError, md5 / hexlify are uninterpreted functions) it is proved, for arbitrary field values, client address and clock
+reading, to return True exactly when: the opaque has two '-' separated parts, the second decodes, the key has three
+fields, the first field is the response's nonce, the second is the client address the response came from (an absent
+address counts as empty -- it is *not* a wildcard), the third is a time no more than CHALLENGE_LIFETIME_SECS before now,
+and the first opaque part is the keyed digest of the key; in every other case it raises LoginFailed and nothing else.
+Bounded (contracts/parts/C48_bounded.py): whole challenge / response histories and byte-level mutations on the real code.
+"""
+import binascii
+
+import z3
+
+from pyvc.api import *
+from pyvc import core
+from contracts._parts import bounded
+from twisted.cred import credentials, error
+
+SEQ = core.IntSeq
+MD5 = z3.Function("c48_md5_digest", SEQ, SEQ)
+HEX = z3.Function("c48_hexlify", SEQ, SEQ)
+LIFETIME = credentials.DigestCredentialFactory.CHALLENGE_LIFETIME_SECS
+
+
+def split_model(I, recv, sep, *rest):
+    g = ctx().ghost
+    if rest:
+        return NotImplemented
+    if recv is g["opaque"] and veq(sep, b"-"):
+        return list(g["opaque_parts"])
+    if recv is g["key"] and veq(sep, b","):
+        return list(g["key_parts"])
+    return NotImplemented
+
+
+def b64decode_model(I, s, *a, **kw):
+    g = ctx().ghost
+    if not g["b64_ok"]:
+        raise binascii.Error("Incorrect padding")
+    return g["key"]
+
+
+def int_model(I, x=0, *a):
+    g = ctx().ghost
+    if isinstance(x, (int, core.SInt)) and not isinstance(x, bool):
+        return x
+    if x is g["key_parts"][2] if len(g["key_parts"]) == 3 else False:
+        if not g["when_ok"]:
+            raise ValueError("invalid literal for int()")
+        return g["when"]
+    return NotImplemented
+
+
+class _Md5:
+    def __init__(self, data):
+        self.data = data
+
+    def digest(self):
+        return core.SSeq(MD5(core.seq_term(self.data, "bytes")), "bytes")
+
+
+CALLS = {
+    "bytes.split": split_model,
+    "base64.b64decode": b64decode_model, "b64decode": b64decode_model,
+    "builtins.int": int_model, "int": int_model,
+    "_hashlib.openssl_md5": lambda I, data=b"": _Md5(data), "openssl_md5": lambda I, data=b"": _Md5(data),
+    "binascii.hexlify": lambda I, b: core.SSeq(HEX(core.seq_term(b, "bytes")), "bytes"),
+    "hexlify": lambda I, b: core.SSeq(HEX(core.seq_term(b, "bytes")), "bytes"),
+    "DigestCredentialFactory._getTime": lambda I, f: ctx().ghost["now"],
+}
+
+
+class VerifyOpaque(Contract):
+    prop = "C48"
+    module = "twisted.cred.credentials"
+    function = "DigestCredentialFactory._verifyOpaque"
+    differential = False
+    calls = CALLS
+    inputs = dict(nparts=OneOf(1, 2, 3), digest=Bytes(alphabet=b"d", small_len=1), ekey=Bytes(alphabet=b"e", small_len=1),
+                  b64_ok=ForkBool(), key=Bytes(alphabet=b"k,", small_len=2), kparts=OneOf(2, 3, 4),
+                  kn=Bytes(alphabet=b"n", small_len=1), kip=Bytes(alphabet=b"1", small_len=1), kw=Bytes(alphabet=b"9", small_len=1),
+                  when_ok=ForkBool(), when=Int(small=[0, 1000]), now=Int(small=[1000, 2000]),
+                  nonce=Bytes(alphabet=b"n", small_len=1), ip=Opt(Bytes(alphabet=b"1", small_len=1)), private=Bytes(alphabet=b"p", small_len=1))
+    trusted = ["bytes.split / base64.b64decode(validate=True) / int() through their contracts (fields as inputs)",
+               "md5 and hexlify as uninterpreted functions (no collision reasoning: equality of digests is taken as given)",
+               "time.time() as an arbitrary integer clock reading"]
+
+    def setup(self, i):
+        f = self.make(credentials.DigestCredentialFactory, privateKey=i.private)
+        opaque = core.fresh_seq(ctx().fresh_name("opaque"), "bytes") if ctx().concrete is False else b"opaque"
+        oparts = [i.digest, i.ekey, b"x"][: i.nparts]
+        kparts = [i.kn, i.kip, i.kw, b"x"][: i.kparts]
+        return dict(self=f, args=[opaque, i.nonce, i.ip],
+                    ghost=dict(opaque=opaque, opaque_parts=oparts, key=i.key, key_parts=kparts, b64_ok=i.b64_ok,
+                               when_ok=i.when_ok, when=i.when, now=i.now))
+
+    def bounded_inputs(self, tier):
+        return iter(())  # library calls are replaced by contracts; the real ones run in the bounded part
+
+    def _accept(S):
+        i = S.i
+        ip = b"" if (i.ip is None or (not is_sym(i.ip) and not i.ip)) else i.ip
+        expected = core.SSeq(HEX(MD5(core.seq_term(i.key + i.private, "bytes"))), "bytes")
+        return band(i.nparts == 2, i.b64_ok, i.kparts == 3, veq(i.kn, i.nonce), veq(i.kip, ip), i.when_ok,
+                    i.now - i.when <= LIFETIME, veq(expected, i.digest))
+
+    raises = {error.LoginFailed: lambda S: bnot(VerifyOpaque._accept(S))}
+    ensures = dict(true_exactly_for_an_unaltered_unexpired_challenge_for_this_address=lambda S: None if S.exc else band(
+        S.result is True, VerifyOpaque._accept(S)))
+    canaries = [("if keyParts[1] != clientip:", "if clientip and keyParts[1] != clientip:", "LoginFailed-exactly-when"),
+                ("if keyParts[0] != nonce:", "if False:", "LoginFailed-exactly-when"),
+                ("> DigestCredentialFactory.CHALLENGE_LIFETIME_SECS", "< DigestCredentialFactory.CHALLENGE_LIFETIME_SECS", "LoginFailed-exactly-when"),
+                ("if digest != opaqueParts[0]:", "if False:", "LoginFailed-exactly-when")]
+
+
+CONTRACTS = [VerifyOpaque]
 BOUNDED = bounded("C48")
 _SCOPE = ("real DigestCredentialFactory (twisted.cred and twisted.web._auth.digest) with a pinned clock and random source: "
           "challenge/response histories (right / wrong password, issued / tampered / forged nonce and opaque, same / other "
@@ -9,11 +123,19 @@ _SCOPE = ("real DigestCredentialFactory (twisted.cred and twisted.web._auth.dige
           "md5-sess), every single-byte insert / delete / replace / duplicate / drop / prefix mutation of every response "
           "field and of the whole header; oracle: an independent RFC 2617 digest and header parser; accept iff computed with "
           "that password over an issued, unaltered, unexpired challenge for that address; only LoginFailed may be raised")
-NOTES = dict(explanation=_SCOPE, not_covered=["deductive contracts: the decision rests on MD5/SHA collision resistance and "
-                                              "regex header parsing, outside the engine's decidable fragment"])
+NOTES = dict(explanation="_verifyOpaque proved to accept exactly an unaltered, unexpired challenge bound to this address (library "
+                         "calls through contracts); the rest is bounded: " + _SCOPE,
+             not_covered=["decode()'s regex header parsing and DigestedCredentials.checkPassword (digest arithmetic over real "
+                          "hashes): bounded tier only", "collision resistance of MD5 / SHA (uninterpreted)"])
 MANIFEST = dict(
-    category="exploration",
-    text="Bounded stand-in only, on the real code: " + _SCOPE + ".",
-    note=EXPLORATION_NOTE,
-    technique="bounded exhaustive evaluation of an executable contract on the real code (stand-in; not proved)",
+    category="proof",
+    text="DigestCredentialFactory._verifyOpaque is proved, for arbitrary opaque fields, nonce, client address, private key and "
+         "clock reading, to return True exactly when the opaque has two parts, the second decodes, the key has three fields, "
+         "field 1 equals the nonce, field 2 equals the client address (absent = empty, not a wildcard), field 3 parses to a "
+         "time at most CHALLENGE_LIFETIME_SECS before now and part 1 equals hexlify(md5(key + privateKey)); otherwise it raises "
+         "LoginFailed and no other exception.  Header parsing, the response digest and whole histories are exercised in the "
+         "bounded tier only: " + _SCOPE + ".",
+    note="Trusted: pyvc, SMT solvers, contracts of bytes.split / b64decode / int, md5 and hexlify uninterpreted, integer clock. "
+         "Everything else: bounded, never counted as proved.",
+    technique="contract-based deductive verification (exhaustive symbolic execution of loop-free code with library contracts and uninterpreted hashes, SMT) + bounded exhaustive histories and mutations",
 )
